@@ -21,6 +21,7 @@ class RequestChannelRequester(RequestChannelCommon, Requester):
         self._payload = payload
         self._is_requested = False
         self._cancel_after_request = False
+        self._request_n_before_request = []
 
     def setup(self):
         super().setup()
@@ -40,11 +41,22 @@ class RequestChannelRequester(RequestChannelCommon, Requester):
         self._is_requested = True
         self._send_channel_request(self._payload)
 
+        for n in self._request_n_before_request:  # requested from within on_subscribe: REQUEST_N must not precede the request
+            self.send_request_n(n)
+
+        self._request_n_before_request = []
+
         if self._cancel_after_request:  # cancelled from within on_subscribe: CANCEL must not precede the request
             self.send_cancel()
 
         if self._publisher is None:
             self.mark_completed_and_finish(sent=True)
+
+    def request(self, n: int):
+        if self._is_requested:
+            super().request(n)
+        elif not self._received_complete:
+            self._request_n_before_request.append(n)
 
     def cancel(self):
         if self._is_requested:
